@@ -281,6 +281,7 @@ func engineConc(ctx *engineCtx) {
 		tz := g.rtZone()
 		sc := concScenario{Name: fmt.Sprintf("scenario%02d", si), Cfg: cfgToInts(cfg), ExtKind: extKind, Zone: zoneName(tz), Goroutines: goroutines, Rounds: rounds}
 		nIn := 4 + g.r.Intn(4)
+		var rtBytes, stBytes [][]byte
 		for k := 0; k < nIn; k++ {
 			var b []byte
 			switch {
@@ -292,6 +293,19 @@ func engineConc(ctx *engineCtx) {
 				b = marshal(&gtfsrt.FeedMessage{Header: header(1700000001), Entity: []*gtfsrt.FeedEntity{
 					{Id: ptr("p1"), TripUpdate: &gtfsrt.TripUpdate{Trip: &gtfsrt.TripDescriptor{TripId: ptr("T-shared")}, Vehicle: &gtfsrt.VehicleDescriptor{Id: ptr("V1")}}},
 					{Id: ptr("p2"), TripUpdate: &gtfsrt.TripUpdate{Trip: &gtfsrt.TripDescriptor{TripId: ptr("T-shared")}, Vehicle: &gtfsrt.VehicleDescriptor{Id: ptr("V2")}}}}})
+			case k == 1 && si%4 == 2:
+				// a large message (hundreds of trips and vehicles): whatever the parser does differently above some size
+				// (batching, helper goroutines) is part of the call and must be over when the call returns
+				big := &gtfsrt.FeedMessage{Header: header(1700000000)}
+				for t, nT := 0, 300+g.r.Intn(500); t < nT; t++ {
+					td := &gtfsrt.TripDescriptor{TripId: ptr(fmt.Sprintf("big-%05d", g.r.Intn(100000))), RouteId: ptr(g.pick(rtRoutes)), StartDate: ptr("20231114")}
+					tu := &gtfsrt.TripUpdate{Trip: td, Vehicle: &gtfsrt.VehicleDescriptor{Id: ptr(fmt.Sprintf("veh-%05d", g.r.Intn(100000)))}}
+					for u := g.r.Intn(3); u > 0; u-- {
+						tu.StopTimeUpdate = append(tu.StopTimeUpdate, g.rtStu(1700000000, false))
+					}
+					big.Entity = append(big.Entity, &gtfsrt.FeedEntity{Id: ptr(fmt.Sprint("b", t)), TripUpdate: tu})
+				}
+				b = marshal(big)
 			case k == nIn-1 && g.coin(0.5):
 				b = []byte{0xff, 0xfe, 0x01, 0x07}
 			case extKind == 2 && (k < 2 || g.coin(0.5)):
@@ -305,38 +319,19 @@ func engineConc(ctx *engineCtx) {
 			name := fmt.Sprintf("s%02d_rt%d.bin", si, k)
 			os.WriteFile(filepath.Join(tmp, name), b, 0o644)
 			sc.RT = append(sc.RT, name)
-			r, perr, cr := func() (*gtfs.Realtime, error, callResult) {
-				var r *gtfs.Realtime
-				var e error
-				c := guarded(20*time.Second, func() {
-					r, e = gtfs.ParseRealtime(append([]byte{}, b...), &gtfs.ParseRealtimeOptions{Timezone: tz, Extension: extOfKind(extKind, cfg)})
-				})
-				return r, e, c
-			}()
-			ctx.evaluations++
-			if cr.panicked || cr.hung {
-				ctx.violate("c18-crash", "ParseRealtime panicked or hung (sequentially): "+cr.msg, map[string]any{"config": cfg.coq()})
-				sc.RTSolo = append(sc.RTSolo, "crash")
-				sc.RTSoloHash = append(sc.RTSoloHash, "")
-				continue
-			}
-			if perr != nil {
-				sc.RTSolo = append(sc.RTSolo, "error")
-				sc.RTSoloHash = append(sc.RTSoloHash, "")
-				continue
-			}
-			sc.RTSolo = append(sc.RTSolo, digest(cRealtime(r)))
-			sc.RTSoloHash = append(sc.RTSoloHash, hashAll(r, false))
-			if dm := decodeMsg(b); dm != nil {
-				caseCfg := cfg
-				if extKind == 0 || extKind == 3 {
-					caseCfg = extCfg{}
-				}
-				cases = append(cases, rtCase(caseCfg, tz, dm, r))
-			}
+			rtBytes = append(rtBytes, b)
 		}
 		for k := 0; k < 2; k++ {
 			f := g.wellFormed(3 + g.r.Intn(8))
+			if k == 1 && si%4 == 0 {
+				// a large feed: trips with a hundred and more stop times, shapes with many points, rows in no particular order
+				f = g.wellFormed(220 + g.r.Intn(120))
+				for _, tn := range []string{"stop_times.txt", "shapes.txt"} {
+					if t := f.table(tn); t != nil {
+						g.r.Shuffle(len(t.rows), func(a, b int) { t.rows[a], t.rows[b] = t.rows[b], t.rows[a] })
+					}
+				}
+			}
 			if g.coin(0.4) {
 				g.corruptRefs(f)
 			}
@@ -346,34 +341,89 @@ func engineConc(ctx *engineCtx) {
 			inherit := g.coin(0.5)
 			name := fmt.Sprintf("s%02d_static%d.zip", si, k)
 			os.WriteFile(filepath.Join(tmp, name), zb, 0o644)
-			s, perr, cr := parseStaticGuarded(zb, gtfs.ParseStaticOptions{InheritWheelchairBoarding: inherit})
-			ctx.evaluations++
-			d := "error"
-			if cr.panicked || cr.hung {
-				d = "crash"
-			} else if perr == nil {
-				d = digest(cStatic(s) + strings.Join(dumpStatic(s), "\n"))
-			}
 			sc.Static = append(sc.Static, name)
 			sc.Inherit = append(sc.Inherit, inherit)
-			sc.StSolo = append(sc.StSolo, d)
+			stBytes = append(stBytes, zb)
 		}
 		sb, _ := json.Marshal(sc)
 		scFile := sc.Name + ".json"
 		os.WriteFile(filepath.Join(tmp, scFile), sb, 0o644)
 		// ---- the reference results, from a process that parses each input once and nothing else ----
+		soloRace := filepath.Join(tmp, sc.Name+".solo.race")
 		soloCmd := exec.Command(self, "conc-child", tmp, scFile, "solo")
-		if out, err := runWithTimeout(soloCmd, 5*time.Minute); err != nil {
-			ctx.violate("c18-crash", fmt.Sprintf("the sequential reference run crashed (%v): %s", err, firstLines(string(out), 6)), map[string]any{"scenario": sc})
+		soloCmd.Env = append(os.Environ(), "GORACE=log_path="+soloRace+" halt_on_error=0 exitcode=0 history_size=2")
+		soloReplay := func() map[string]any {
+			return map[string]any{"scenario": sc, "how": "harness conc-child <dir> " + scFile + " solo (binary built with -race): each input parsed once, alone, in a fresh process",
+				"inputs_hex": hexFiles(tmp, append(append([]string{}, sc.RT...), sc.Static...))}
+		}
+		out, soloErr := runWithTimeout(soloCmd, 5*time.Minute)
+		if races, _ := filepath.Glob(soloRace + ".*"); len(races) > 0 {
+			rb, _ := os.ReadFile(races[0])
+			txt := string(rb)
+			if len(txt) > 3500 {
+				txt = txt[:3500]
+			}
+			rp := soloReplay()
+			rp["race_report"] = txt
+			ctx.violate("c18-data-race", "the Go race detector reports a data race inside a single call running alone (goroutines started by the call): "+firstLines(txt, 12), rp)
 			continue
+		}
+		if soloErr != nil {
+			ctx.violate("c18-crash", fmt.Sprintf("the sequential reference run crashed (%v): %s", soloErr, firstLines(string(out), 6)), soloReplay())
+			continue
+		}
+		// ---- this process (which has a history of earlier parses) parses the same inputs: it must agree with the fresh one ----
+		for k, b := range rtBytes {
+			var r *gtfs.Realtime
+			var perr error
+			cr := guarded(20*time.Second, func() {
+				r, perr = gtfs.ParseRealtime(append([]byte{}, b...), &gtfs.ParseRealtimeOptions{Timezone: tz, Extension: extOfKind(extKind, cfg)})
+			})
+			ctx.evaluations++
+			switch {
+			case cr.panicked || cr.hung:
+				ctx.violate("c18-crash", "ParseRealtime panicked or hung (sequentially): "+cr.msg, map[string]any{"config": cfg.coq(), "inputs_hex": hexFiles(tmp, sc.RT[k:k+1])})
+				sc.RTSolo = append(sc.RTSolo, "crash")
+				sc.RTSoloHash = append(sc.RTSoloHash, "")
+			case perr != nil:
+				sc.RTSolo = append(sc.RTSolo, "error")
+				sc.RTSoloHash = append(sc.RTSoloHash, "")
+			default:
+				sc.RTSolo = append(sc.RTSolo, digest(cRealtime(r)))
+				sc.RTSoloHash = append(sc.RTSoloHash, hashAll(r, false))
+				if dm := decodeMsg(b); dm != nil && len(b) < 20000 {
+					caseCfg := cfg
+					if extKind == 0 || extKind == 3 {
+						caseCfg = extCfg{}
+					}
+					cases = append(cases, rtCase(caseCfg, tz, dm, r))
+				}
+			}
+		}
+		for k, zb := range stBytes {
+			st, perr, cr := parseStaticGuarded(zb, gtfs.ParseStaticOptions{InheritWheelchairBoarding: sc.Inherit[k]})
+			ctx.evaluations++
+			d := "error"
+			if cr.panicked || cr.hung {
+				d = "crash"
+			} else if perr == nil {
+				d = digest(cStatic(st) + strings.Join(dumpStatic(st), "\n"))
+			}
+			sc.StSolo = append(sc.StSolo, d)
 		}
 		if sb2, err := os.ReadFile(filepath.Join(tmp, scFile)); err == nil {
 			var sc2 concScenario
-			if json.Unmarshal(sb2, &sc2) == nil && len(sc2.RTSolo) == len(sc.RT) {
-				for k := range sc.RTSolo { // this process (which has a history) must agree with the fresh one: otherwise history leaks (C06's business, reported here too)
+			if json.Unmarshal(sb2, &sc2) == nil && len(sc2.RTSolo) == len(sc.RT) && len(sc2.StSolo) == len(sc.Static) {
+				for k := range sc.RTSolo { // otherwise history leaks (C06's business, reported here too)
 					if sc.RTSolo[k] != sc2.RTSolo[k] {
 						ctx.violate("c18-differs-from-sequential", fmt.Sprintf("ParseRealtime(%s) in a process that parsed other inputs before gives %s, alone in a fresh process %s (%s)", sc.RT[k], sc.RTSolo[k], sc2.RTSolo[k], cfg.coq()),
 							map[string]any{"scenario": sc2, "inputs_hex": hexFiles(tmp, sc.RT)})
+					}
+				}
+				for k := range sc.StSolo {
+					if sc.StSolo[k] != sc2.StSolo[k] {
+						ctx.violate("c18-differs-from-sequential", fmt.Sprintf("ParseStatic(%s) in a process that parsed other inputs before gives %s, alone in a fresh process %s", sc.Static[k], sc.StSolo[k], sc2.StSolo[k]),
+							map[string]any{"scenario": sc2, "inputs_hex": hexFiles(tmp, sc.Static[k:k+1])})
 					}
 				}
 				sc = sc2
